@@ -277,6 +277,146 @@ def c03 (inp obs : Json) : Res :=
               nontrivial := !inconclusive && (stepsOf obs).any fun (_, o) => (libTrace o).any fun e => e.name == "batchDeliver" || e.name == "writeBody" }
   | some m => { agree := agree, specOk := false, why := m ++ (if agree then "" else " | " ++ why) }
 
+/-! #### C05 -/
+
+def sortDedup (xs : List String) : List String :=
+  (xs.foldl (fun (acc : List String) x => if acc.contains x then acc else acc ++ [x]) []).toArray.qsort (· < ·) |>.toList
+
+/-- the set of ids a property names (`none`: some element has no id) -/
+def idSet (v : J) (p : String) : Option (List String) :=
+  match Val.prop facts v p with
+  | none => some []
+  | some xs => match Val.idsOf facts xs with
+    | .ok ids => some (sortDedup ids)
+    | .error _ => none
+
+def unionS (a b : List String) : List String := sortDedup (a ++ b)
+
+def addressing : List String := ["to", "bto", "cc", "bcc", "audience"]
+
+def embObjects (v : J) : List J :=
+  ((Val.prop facts v "object").getD []).filterMap fun j => match Val.elemOf facts j with | .emb t => some t | _ => none
+
+def c05Step (sin sobs : Json) : Option String :=
+  let evs := libTrace sobs
+  let entry := jstr sin "entry"
+  if !(entry == "postOutbox" || entry == "send") then none else
+  if (sobs.getObjVal? "panic").toOption.isSome then none else
+  match monRun outboxOrderMon {} evs with
+  | .error (i, what) => some s!"event {i} ({what}): delivery before the activity was stored in the outbox, or after a failed step"
+  | .ok _ =>
+  let err := jstr sobs "err"
+  let wh := evs.find? fun e => e.name == "writeHeader"
+  let status := match wh with | some e => (e.args.getD 0 Json.null).getNat?.toOption.getD 0 | none => 0
+  let accepted := err == "nil" && (if entry == "send" then (sobs.getObjVal? "returned").toOption.isSome else status == 201)
+  if !accepted then none else
+  let input : J := if entry == "send" then toJ (jget sin "value") else toJ (jget (jget sin "body") "v")
+  let newIds : List String := evs.filterMap fun e => if e.name == "newID" then (jget e.resp "ok").getStr?.toOption else none
+  match newIds with
+  | [] => some "accepted, but no id was requested for the activity"
+  | actId :: objIds =>
+  let returnedId := if entry == "send" then Val.idGet (toJ (jget sobs "returned"))
+    else match wh with | some e => jstr (e.args.getD 1 Json.null) "Location" | none => ""
+  if returnedId != actId then some s!"the id reported to the caller ({returnedId}) is not the fresh id {actId}" else
+  let creates : List J := evs.filterMap fun e => if e.name == "create" && !isErr e.resp then some (J.norm (toJ (e.args.getD 0 Json.null))) else none
+  match creates.find? fun c => Val.idGet c == actId with
+  | none => some "the activity was not stored under its fresh id"
+  | some A' =>
+  -- outbox: exactly one SetOutbox, = the page GetOutbox returned with the id in front
+  let gets := evs.filterMap fun e => if e.name == "getOutbox" && !isErr e.resp then some (toJ (jget e.resp "ok")) else none
+  let sets := evs.filterMap fun e => if e.name == "setOutbox" then some (toJ (e.args.getD 0 Json.null)) else none
+  match gets, sets with
+  | [pg], [ps] =>
+    let items (p : J) := (Val.rawList p "orderedItems").getD []
+    if items ps != J.str actId :: items pg then some "the outbox page written is not the page read with the new id in front" else
+    let createIdx := evs.findIdx fun e => e.name == "create" && Val.idGet (toJ (e.args.getD 0 Json.null)) == actId
+    let setIdx := evs.findIdx fun e => e.name == "setOutbox"
+    if !(createIdx < setIdx) then some "the outbox was updated before the activity was stored" else
+    let isActivity := facts.isOrExt "Activity" (Val.typeName input)
+    let owner : Option String := (evs.find? fun e => e.name == "actorForOutbox").bind fun e => (jget e.resp "ok").getStr?.toOption
+    -- wrapping
+    -- the value as it was handed to NewID: the posted activity, or the Create wrapped around the posted object
+    let W : J := match evs.find? fun e => e.name == "newID" with
+      | some e => J.norm (toJ (e.args.getD 0 Json.null))
+      | none => .null
+    let wrapBad : Option String :=
+      if isActivity then (if W == J.norm input then none else some "an activity was altered before ids were assigned") else
+      if Val.typeName W != "Create" then some "a non-activity was not wrapped in a Create" else
+      if idSet W "actor" != owner.map (fun o => [o]) then some "the wrapping Create's actor is not the outbox's owner" else
+      if embObjects W != [J.norm input] then some "the wrapping Create does not embed exactly the posted object" else
+      if (W.get? "published") != (input.get? "published") then some "the wrapping Create did not copy published" else
+      match addressing.find? fun p => idSet W p != idSet input p with
+      | some p => some s!"the wrapping Create's {p} is not the object's"
+      | none => none
+    match wrapBad with
+    | some m => some m
+    | none =>
+    let isCreate := facts.isOrExt "Create" (Val.typeName A')
+    -- fresh ids on every embedded object of a Create
+    let objs' := embObjects A'
+    let idsBad := isCreate && (objs'.map Val.idGet) != objIds.take objs'.length
+    if idsBad then some "an embedded object of the Create did not receive its fresh id" else
+    let socialOn := (cfgOf (jstr sin "kind")).social
+    let cfgEv := evs.find? fun e => e.name == "socialCallbacks"
+    let defaultCreate := socialOn && Val.typeName A' == "Create" &&
+      (match cfgEv with | some e => !(jIris (jget (jget e.resp "ok") "other")).contains "Create" | none => false)
+    if !defaultCreate then none else
+    -- the activity as it entered the side effects
+    let A0actor : Option (List String) := if isActivity then idSet input "actor" else owner.map fun o => [o]
+    let A0addr (p : String) : Option (List String) := idSet input p
+    let objs0 : List J := if isActivity then embObjects input else [input]
+    if objs0.length != objs'.length then some "the Create's objects changed in number" else
+    let pairs := objs0.zip objs'
+    let opt2 (a b : Option (List String)) : Option (List String) := match a, b with | some x, some y => some (unionS x y) | _, _ => none
+    let unionAll (base : Option (List String)) (p : String) : Option (List String) := objs0.foldl (fun acc o => opt2 acc (idSet o p)) base
+    let bad : Option String :=
+      (addressing.findSome? fun p =>
+        if idSet A' p != unionAll (A0addr p) p then some s!"the Create's {p} is not the union over the activity and its objects"
+        else pairs.findSome? fun (o, o') =>
+          if idSet o' p != opt2 (idSet o p) (A0addr p) then some s!"an object's {p} is not its own plus the activity's" else none)
+      <|> (if (Val.prop facts A' "actor").isSome && idSet A' "actor" != unionAll A0actor "attributedTo" then some "the Create's actors do not cover every object's attributedTo" else none)
+      <|> (pairs.findSome? fun (o, o') =>
+          if idSet o' "attributedTo" != opt2 (idSet o "attributedTo") A0actor then some "an object's attributedTo is not its own plus the Create's actors" else none)
+      <|> (objs'.findSome? fun o' => if creates.any (fun c => c == J.norm o') then none else some s!"the object {Val.idGet o'} was not stored as it ended up")
+    bad
+  | _, _ => some s!"expected one GetOutbox and one SetOutbox, saw {gets.length} and {sets.length}"
+
+/-- across the steps of a scenario: each outbox lists the accepted ids newest first in front of what it held -/
+def c05History (obs : Json) : Option String :=
+  let steps := stepsOf obs
+  let boxes := sortDedup (steps.map fun (sin, _) => jstr sin "box")
+  boxes.findSome? fun box =>
+    let mine := steps.filter fun (sin, _) => jstr sin "box" == box
+    let accepted : List String := mine.filterMap fun (sin, sobs) =>
+      let evs := libTrace sobs
+      let ok := jstr sobs "err" == "nil" && (if jstr sin "entry" == "send" then (sobs.getObjVal? "returned").toOption.isSome
+        else evs.any fun e => e.name == "writeHeader" && (e.args.getD 0 Json.null).getNat?.toOption == some 201)
+      if !ok then none else
+      if jstr sin "entry" == "send" then some (Val.idGet (toJ (jget sobs "returned")))
+      else (evs.find? fun e => e.name == "writeHeader").map fun e => jstr (e.args.getD 1 Json.null) "Location"
+    let allEvs := mine.flatMap fun (_, sobs) => libTrace sobs
+    let firstGet := allEvs.findSome? fun e => if e.name == "getOutbox" && !isErr e.resp then some (toJ (jget e.resp "ok")) else none
+    let lastSet := (allEvs.filterMap fun e => if e.name == "setOutbox" && !isErr e.resp then some (toJ (e.args.getD 0 Json.null)) else none).getLast?
+    let items (p : J) := (Val.rawList p "orderedItems").getD []
+    match firstGet, lastSet with
+    | some pg, some ps =>
+      if accepted.length < 1 then none else
+      -- posts that updated the outbox and then failed to deliver are listed too; they are exactly the SetOutbox successes
+      let listed := (allEvs.filterMap fun e => if e.name == "setOutbox" && !isErr e.resp then
+          (match items (toJ (e.args.getD 0 Json.null)) with | J.str s :: _ => some s | _ => none) else none)
+      if items ps != (listed.reverse.map J.str) ++ items pg then some s!"outbox {box} does not list the stored ids newest first"
+      else if !(accepted.all fun a => listed.contains a) then some s!"outbox {box} misses an id that was reported to a caller"
+      else if listed.length != (sortDedup listed).length then some s!"outbox {box} lists an id twice"
+      else none
+    | _, _ => none
+
+def c05 (inp obs : Json) : Res :=
+  let (agree, why, inconclusive) := replayAll inp obs
+  match (checkSteps obs c05Step) <|> c05History obs with
+  | none => { agree := agree, specOk := true, why := why,
+              nontrivial := !inconclusive && (stepsOf obs).any fun (_, o) => (libTrace o).any fun e => e.name == "setOutbox" }
+  | some m => { agree := agree, specOk := false, why := m ++ (if agree then "" else " | " ++ why) }
+
 def pubGeneric (_prop : String) (inp obs : Json) : Res :=
   let (agree, why, inconclusive) := replayAll inp obs
   { agree := agree, specOk := true, why := why, nontrivial := !inconclusive }
